@@ -199,88 +199,78 @@ theorem quantise_fields_always (x : Dbl) (q s : Int) (h : quantiseScale x = .ok 
 
 /-! ## `reduced_quantise_scale` (int16 with 64-bit bias) -/
 
-/-- Under exactly the guard the code applies (`0 ≤ shift < 64` of the *unreduced* shift, i.e. the
-    full hardware range) the reduced pair has a 15-bit multiplier, the shift `shift − 16`, and
-    relative error at most `2^-14`. -/
+/-- Under exactly the guard the code applies (`0 ≤ reduced_shift < 64` on top of the guard of
+    `quantise_scale`, i.e. `2^-33 ≤ x < 2^15`) the reduced pair has a 15-bit multiplier, the shift
+    `shift − 16 ∈ [0, 47]`, and relative error at most `2^-14`. -/
 theorem reduced_rel_err (m : Nat) (e : Int) (h1 : 2 ^ 52 ≤ m) (h2 : m < 2 ^ 53)
-    (hin : HwRange m e) :
+    (hin : HwRange16 m e) :
     ∃ q16 : Int, reducedQuantiseScale (.fin false m e) = .ok (q16, (-e - 22) - 16) ∧
-      2 ^ 14 ≤ q16 ∧ q16 ≤ 32767 ∧ RelErr q16 (-((-e - 22) - 16)) m e 1 (2 ^ 14) := by
-  rw [hwRange_iff m e h1 h2] at hin
+      2 ^ 14 ≤ q16 ∧ q16 ≤ 32767 ∧ 0 ≤ (-e - 22) - 16 ∧ (-e - 22) - 16 ≤ 47 ∧
+      RelErr q16 (-((-e - 22) - 16)) m e 1 (2 ^ 14) := by
+  rw [hwRange16_iff m e h1 h2] at hin
   have hs : (-e - 22) - 16 = -e - 38 := by omega
   rw [hs]
-  refine ⟨_, reduced_in m e h1 h2 hin.1 hin.2, ?_, ?_, relErr_reduced m e h1 h2⟩
+  refine ⟨_, reduced_in m e h1 h2 hin.1 hin.2, ?_, ?_, by omega, by omega, relErr_reduced m e h1 h2⟩
   · have := sigQ31_range m h1 h2
     split <;> omega
   · have := sigQ31_range m h1 h2
     split <;> omega
 
-/-- Reduced form over the rationals: under the code's guard, `|q16·2^-s16 − x| ≤ 2^-14·x`. -/
+/-- Reduced form over the rationals: `|q16·2^-s16 − x| ≤ 2^-14·x` for `2^-33 ≤ x < 2^15`. -/
 theorem reduced_rel_err_rat (m : Nat) (e : Int) (h1 : 2 ^ 52 ≤ m) (h2 : m < 2 ^ 53)
-    (hin : HwRange m e) :
+    (hin : HwRange16 m e) :
     ∃ q16 s16 : Int, reducedQuantiseScale (.fin false m e) = .ok (q16, s16) ∧ q16 ≤ 32767 ∧
       |(q16:ℚ) * (2:ℚ) ^ (-s16) - (m:ℚ) * (2:ℚ) ^ e| * 2 ^ 14 ≤ (m:ℚ) * (2:ℚ) ^ e := by
-  obtain ⟨q16, hq, _, hhi, hrel⟩ := reduced_rel_err m e h1 h2 hin
+  obtain ⟨q16, hq, _, hhi, _, _, hrel⟩ := reduced_rel_err m e h1 h2 hin
   refine ⟨q16, _, hq, hhi, ?_⟩
   have := (relErr_iff_rat q16 _ m e 1 (2 ^ 14)).1 hrel
   norm_num at this ⊢
   exact this
 
-/-- The reduced shift is a valid field exactly for `x < 2^15`; for `2^15 ≤ x < 2^31` it is negative
-    (the code re-tests `shift`, not `reduced_shift`). -/
-theorem reduced_shift_negative_iff (m : Nat) (e : Int) (h1 : 2 ^ 52 ≤ m) (h2 : m < 2 ^ 53)
-    (hin : HwRange m e) (q s : Int) (h : reducedQuantiseScale (.fin false m e) = .ok (q, s)) :
-    s < 0 ↔ ¬ HwRange16 m e := by
-  rw [hwRange_iff m e h1 h2] at hin
-  rw [reduced_in m e h1 h2 hin.1 hin.2] at h
-  injection h with h; injection h with _ hs
-  rw [hwRange16_iff m e h1 h2]
-  omega
+/-- Outside `2^-33 ≤ x < 2^15` the reduced form degrades to a zero multiplier (with shift 16 when
+    only the reduced shift would be negative, shift 0 when `quantise_scale` already degraded);
+    nothing wraps. -/
+theorem reduced_out_of_range_zero (m : Nat) (e : Int) (h1 : 2 ^ 52 ≤ m) (h2 : m < 2 ^ 53)
+    (hout : ¬ HwRange16 m e) :
+    reducedQuantiseScale (.fin false m e) = .ok (0, 16) ∨
+    reducedQuantiseScale (.fin false m e) = .ok (0, 0) := by
+  rw [hwRange16_iff m e h1 h2] at hout
+  by_cases hmid : -37 ≤ e ∧ e ≤ -22
+  · exact Or.inl (reduced_mid m e h1 h2 hmid.1 hmid.2)
+  · exact Or.inr (reduced_out m e h1 h2 (by omega))
 
-/- Full statement (false of the unchanged code, see the witness below):
-   theorem reduced_meets_spec (m e) (2^52 ≤ m < 2^53) :
-     ∃ q s, reducedQuantiseScale (.fin false m e) = .ok (q, s) ∧ ReducedOk m e q s
-   Missing: for 2^15 ≤ x < 2^31 the code returns a non-zero multiplier with a negative shift
-   instead of the zero multiplier. -/
-/-- `ReducedOk` for every positive double outside `[2^15, 2^31)`. -/
-theorem reduced_meets_spec_partial (m : Nat) (e : Int) (h1 : 2 ^ 52 ≤ m) (h2 : m < 2 ^ 53)
-    (hx : HwRange16 m e ∨ ¬ HwRange m e) :
+/-- All clauses of the reduced form, for every positive double.
+    (Historical note: before /repo de981c1 the guard re-tested the unreduced `shift`; the statement was
+    then false — `reduced_quantise_scale(65536.0) = (16384, −2)`, formerly proved here as
+    `reduced_meets_spec_witness` next to a `reduced_meets_spec_partial` that excluded `[2^15, 2^31)`.) -/
+theorem reduced_meets_spec (m : Nat) (e : Int) (h1 : 2 ^ 52 ≤ m) (h2 : m < 2 ^ 53) :
     ∃ q s, reducedQuantiseScale (.fin false m e) = .ok (q, s) ∧ ReducedOk m e q s := by
   by_cases h16 : HwRange16 m e
-  · have hin : HwRange m e := by
-      rw [hwRange_iff m e h1 h2]; rw [hwRange16_iff m e h1 h2] at h16; omega
-    obtain ⟨q16, hq, hlo, hhi, hrel⟩ := reduced_rel_err m e h1 h2 hin
+  · obtain ⟨q16, hq, hlo, hhi, hs0, hs1, hrel⟩ := reduced_rel_err m e h1 h2 h16
     refine ⟨_, _, hq, ?_⟩
     unfold ReducedOk
     rw [if_pos h16]
-    rw [hwRange16_iff m e h1 h2] at h16
-    exact ⟨by omega, hhi, by omega, by omega, hrel⟩
-  · have hout : ¬ HwRange m e := by
-      rcases hx with h | h
-      · exact absurd h h16
-      · exact h
-    rw [hwRange_iff m e h1 h2] at hout
-    refine ⟨_, _, reduced_out m e h1 h2 hout, ?_⟩
-    unfold ReducedOk
-    rw [if_neg h16]
-    decide
-
-/-- Witness that the full statement fails: `reduced_quantise_scale(65536.0) = (16384, −2)` — a
-    non-zero multiplier with a shift outside `[0, 63]`. -/
-theorem reduced_meets_spec_witness :
-    reducedQuantiseScale (.fin false (2 ^ 52) (-36)) = .ok (16384, -2) ∧
-    ¬ ReducedOk (2 ^ 52) (-36) 16384 (-2) := by decide
+    exact ⟨by omega, hhi, hs0, by omega, hrel⟩
+  · rcases reduced_out_of_range_zero m e h1 h2 h16 with h | h
+    · refine ⟨_, _, h, ?_⟩
+      unfold ReducedOk
+      rw [if_neg h16]
+      decide
+    · refine ⟨_, _, h, ?_⟩
+      unfold ReducedOk
+      rw [if_neg h16]
+      decide
 
 /-- The reduced multiplier is the reference kernels' own reduction of the reference 32-bit
     multiplier, except when the 32-bit multiplier rounds up to `2^31` (significand within `2^-32` of
     1): the reference renormalises to `2^30` first and obtains `2^14` with a shift one smaller, Vela
-    saturates to `32767` — a `2^-15` relative difference (second conjunct: witness `1 − 2^-53`). -/
+    saturates to `32767` — a `2^-15` relative difference (witness `1 − 2^-53` below). -/
 theorem reduced_matches_tflite_reduction (m : Nat) (e : Int) (h1 : 2 ^ 52 ≤ m) (h2 : m < 2 ^ 53)
-    (hin : HwRange m e) (hnr : sigQ31 m < 2 ^ 31) :
+    (hin : HwRange16 m e) (hnr : sigQ31 m < 2 ^ 31) :
     reducedQuantiseScale (.fin false m e) =
       .ok (tfliteReducedMultiplier (tfliteQuantizeMultiplierNoFlush m e).1,
            15 - (tfliteQuantizeMultiplierNoFlush m e).2) := by
-  rw [hwRange_iff m e h1 h2] at hin
+  rw [hwRange16_iff m e h1 h2] at hin
   rw [reduced_in m e h1 h2 hin.1 hin.2]
   have hT : tfliteQuantizeMultiplierNoFlush m e = (((sigQ31 m : Nat) : Int), e + 53) := by
     unfold tfliteQuantizeMultiplierNoFlush
@@ -550,12 +540,15 @@ theorem advanced_fields (A : Arith) (s1 s2 so : FVal) (bd : Int) (r : AdvancedRe
 
 /-! ## What reaches the registers (`register_command_stream_generator.py`) -/
 
-/-- Average pool with equal IFM/OFM scales given as Python floats / `np.float64` (exact conversion
-    of the integer scale, `x · 1.0 = x`): `NPU_SET_OFM_SCALE` carries exactly the pair of
-    `quantise_pooling_scale`, nothing is masked away; `pooling_divides` applies to the register. -/
-theorem pool_register_exact (A : Arith) (k : FKind) (n : Int) (hn : 1 ≤ n) (hn16 : n ≤ 65536)
-    (hcast : ∀ x, A.cast k x = x) (hmul : ∀ x, A.mul k x (.fin false 1 0) = x) :
-    ∃ S sh, poolRegistersEqualScales A k n = .ok (S, sh) ∧ quantisePoolingScale n 0 = .ok (S, sh) := by
+/-- Average pool with equal IFM/OFM scales of any scalar type (the rescale factor is computed in
+    double, where the conversion of the integer scale is exact and `x · 1.0 = x`):
+    `NPU_SET_OFM_SCALE` carries exactly the pair of `quantise_pooling_scale`, nothing is masked away;
+    `pooling_divides` applies to the register.
+    (Historical note: before /repo 5f5d642 an `np.float32` rescale made the product float32 under
+    NumPy ≥ 2; the 2 × 2 window then got `2^31` instead of `2^31 + 1`, see the `example` below.) -/
+theorem pool_register_exact (A : Arith) (n : Int) (hn : 1 ≤ n) (hn16 : n ≤ 65536)
+    (hcast : ∀ x, A.cast .f64 x = x) (hmul : ∀ x, A.mul .f64 x (.fin false 1 0) = x) :
+    ∃ S sh, poolRegistersEqualScales A n = .ok (S, sh) ∧ quantisePoolingScale n 0 = .ok (S, sh) := by
   obtain ⟨S, sh, hq, hf, hlo, hhi⟩ := pooling_fields n hn hn16
   refine ⟨S, sh, ?_, hq⟩
   unfold PoolFields at hf
@@ -571,14 +564,10 @@ theorem pool_register_exact (A : Arith) (k : FKind) (n : Int) (hn : 1 ≤ n) (hn
   have h2 : sh % 2 ^ 16 = sh := Int.emod_eq_of_lt (by omega) (by omega)
   rw [h1, h2]
 
-/-- With `np.float32` scales (as read from a model) NumPy ≥ 2 converts the integer scale to
-    float32: for the 2 × 2 window `2^31 + 1` becomes `2^31`, and the register pair no longer
-    reproduces the reference at the tie `acc = −2` (0 instead of −1).  Recorded finding
-    `avgpool-ofm-scale-rounded-to-float32-numpy2`. -/
-theorem pool_register_float32_witness :
-    quantisePoolingScale 4 0 = .ok (2 ^ 31 + 1, 33) ∧ rneNat 24 (2 ^ 31 + 1) = 2 ^ 31 ∧
-    PoolOk (2 ^ 31 + 1) 33 4 (-2) ∧ ¬ PoolOk (2 ^ 31) 33 4 (-2) ∧
-    hwRound (-2 * 2 ^ 31) 33 = 0 ∧ refAvg (-2) 4 = -1 := by decide
+/-- why the exact scale matters: the 24-bit rounding `2^31` of the 2 × 2 pair `2^31 + 1` misses the
+    reference at the tie `acc = −2` (0 instead of −1) -/
+example : quantisePoolingScale 4 0 = .ok (2 ^ 31 + 1, 33) ∧ PoolOk (2 ^ 31 + 1) 33 4 (-2) ∧
+    ¬ PoolOk (2 ^ 31) 33 4 (-2) ∧ hwRound (-2 * 2 ^ 31) 33 = 0 ∧ refAvg (-2) 4 = -1 := by decide
 
 /-- Elementwise MUL: `NPU_SET_OFM_SCALE` carries the pair of `elementwise_mul_scale` unmasked
     (for a non-negative multiplier, i.e. a non-negative rounded quotient). -/
@@ -610,10 +599,11 @@ example : ¬ HwRange (2 ^ 52) (-86) ∧ ¬ HwRange (2 ^ 52) (-21) ∧ HwRange (2
     HwRange (2 ^ 53 - 1) (-22) ∧ quantiseScale (.fin false (2 ^ 53 - 1) (-22)) = .ok (2 ^ 31, 0) := by decide
 -- the smallest subnormal double 1 · 2^-1074 goes through `frexp` and degrades to the zero multiplier
 example : quantiseScale (.fin false 1 (-1074)) = .ok (0, 16) ∧ frexpNorm 1 (-1074) = (2 ^ 52, -1126) := by decide
--- reduced form: 0.1 again; HwRange16 holds, so `reduced_meets_spec_partial` applies
+-- reduced form: 0.1 again (HwRange16 holds); 65536.0 is outside and now degrades to the zero multiplier
 example : HwRange16 7205759403792794 (-56) ∧
     reducedQuantiseScale (.fin false 7205759403792794 (-56)) = .ok (26214, 18) ∧
-    ReducedOk 7205759403792794 (-56) 26214 18 := by decide
+    ReducedOk 7205759403792794 (-56) 26214 18 ∧ ¬ HwRange16 (2 ^ 52) (-36) ∧
+    reducedQuantiseScale (.fin false (2 ^ 52) (-36)) = .ok (0, 16) := by decide
 -- pooling: 3×3 window, the most negative int8 accumulator, and a half-way case
 example : (1 : Int) ≤ 9 ∧ (9 : Int) ≤ 65536 ∧ (-1152 : Int).natAbs ≤ (9 : Int).natAbs * 2 ^ 8 ∧
     quantisePoolingScale 9 0 = .ok (3817748709, 35) ∧ PoolOk 3817748709 35 9 (-1152) ∧
